@@ -509,11 +509,12 @@ def V1c.taskDone {M O} (st : V1c M O) (i : Nat) : Bool :=
   st.finished.contains i || (match st.base.fwds[i]? with | some f => f.ended | none => false)
 
 /-! ### one `grant` of the engine = the task runs until it parks or returns; a converter call
-may publish re-entrantly (`re`): the publication lands between two sends of the same poll -/
+may act on the port re-entrantly (`re`): publish on it, or drop it — the operation lands
+between two sends of the same poll -/
 
-/-- Run the v2 port task until it parks or finishes. `re c` = what the converter call `c`
-publishes on the port it is subscribed to (in the middle of the poll). -/
-def V2c.runTask {M O} (re : Call M → Option M) : Nat → V2c M O → List (Call M) → V2c M O × List (Call M)
+/-- Run the v2 port task until it parks or finishes. `re c` = the port operations the
+converter call `c` performs on the port it is subscribed to (in the middle of the poll). -/
+def V2c.runTask {M O} (re : Call M → List (Op2c M O)) : Nat → V2c M O → List (Call M) → V2c M O × List (Call M)
   | 0, st, acc => (st, acc)
   | fuel + 1, st, acc =>
     if st.finished then (st, acc)
@@ -521,13 +522,13 @@ def V2c.runTask {M O} (re : Call M → Option M) : Nat → V2c M O → List (Cal
       | false, .wait _ _, [] => (st, acc)
       | _, _, _ =>
         let (st', c) := st.task
-        let st' := match c.bind re with
-          | some m => st'.step (.op (.publish m))
+        let st' := match c with
+          | some c => st'.run (re c)
           | none => st'
         V2c.runTask re fuel st' (acc ++ c.toList)
 
 /-- Run forwarding task `i` until it parks or returns. -/
-def V1c.runTask {M O} (re : Call M → Option M) : Nat → V1c M O → Nat → List (Call M) → V1c M O × List (Call M)
+def V1c.runTask {M O} (re : Call M → List (Op1c M O)) : Nat → V1c M O → Nat → List (Call M) → V1c M O × List (Call M)
   | 0, st, _, acc => (st, acc)
   | fuel + 1, st, i, acc =>
     match st.base.fwds[i]? with
@@ -536,8 +537,8 @@ def V1c.runTask {M O} (re : Call M → Option M) : Nat → V1c M O → Nat → L
       if st.taskDone i || (!st.closed && decide (st.base.log.length ≤ f.cursor)) then (st, acc)
       else
         let (st', c) := st.task i
-        let st' := match c.bind re with
-          | some m => st'.step (.op (.publish m))
+        let st' := match c with
+          | some c => st'.run (re c)
           | none => st'
         V1c.runTask re fuel st' i (acc ++ c.toList)
 
